@@ -335,6 +335,10 @@ def run(ctx):
                 circ.compile(); outcome = 'accepted'
             except Exception:
                 outcome = 'refused'
+            am = ctx.drv.ask('circ %s compile' % cid_)       # the model's circuit after the call (Circ.compileSt) and its outcome
+            ctx.count('corr:rcc-compile-outcome')
+            if (am == 'ok') != (outcome == 'accepted'):
+                ctx.mismatch(kind + '_rcc', 'compile() of a circuit with random gates', am, outcome, dict(kind=kind, N=n, depth=depth))
             ctx.count('compile-of-random-circuit:' + outcome)
             drawn3 = []
             st3 = impl.state(rows, r)
